@@ -156,6 +156,161 @@ pub mod verif_api {
             stages: out.stages,
         }
     }
+
+    /// The constants of the leaf format and of the leaf updater:
+    /// (LEAF_NODE_BODY_SIZE, MAX_LEAF_VALUE_SIZE, LEAF_MERGE_THRESHOLD,
+    /// LEAF_BULK_SPLIT_THRESHOLD, LEAF_BULK_SPLIT_TARGET).
+    pub fn leaf_constants() -> (usize, usize, usize, usize, usize) {
+        crate::beatree::verif_leaf_constants()
+    }
+
+    /// One operation of the leaf stage on a key.
+    pub enum VerifLeafOp {
+        /// Insert the key or overwrite its value; `overflow`: `value` is an overflow cell.
+        Put {
+            /// The key.
+            key: KeyPath,
+            /// The value, or the bytes of the overflow cell.
+            value: Vec<u8>,
+            /// Whether `value` is an overflow cell.
+            overflow: bool,
+        },
+        /// Delete the key; on a key the base leaf does not hold this only keeps the cells below it.
+        Delete {
+            /// The key.
+            key: KeyPath,
+        },
+    }
+
+    /// A cell of a leaf: key, value (or overflow cell), overflow flag.
+    pub type VerifLeafCell = (KeyPath, Vec<u8>, bool);
+
+    /// One step of a leaf stage worker: `reset_base`, `ingest` of the operations, `digest`.
+    pub struct VerifLeafStage {
+        /// The cells of the base leaf, if any; the leaf is built with the real `LeafBuilder`.
+        pub base: Option<Vec<VerifLeafCell>>,
+        /// The separator of the base leaf.
+        pub separator: KeyPath,
+        /// Keep the previous base and call `remove_cutoff()` instead of `reset_base`.
+        pub remove_cutoff: bool,
+        /// Operations on ascending keys below the cutoff.
+        pub ops: Vec<VerifLeafOp>,
+        /// The separator of the next leaf, `None` for the last leaf.
+        pub cutoff: Option<KeyPath>,
+    }
+
+    /// A leaf the updater built and what was computed for it.
+    pub struct VerifBuiltLeaf {
+        /// Index of the stage whose `digest` built the leaf.
+        pub stage: usize,
+        /// The separator the leaf was handed over with.
+        pub separator: KeyPath,
+        /// The cutoff the leaf was handed over with.
+        pub cutoff: Option<KeyPath>,
+        /// `LeafGauge::body_size()` of the gauge that decided to build the leaf.
+        pub gauge_body_size: usize,
+        /// Body size of the item count and value size `LeafBuilder` was created with.
+        pub builder_body_size: usize,
+        /// The bytes of the built page.
+        pub page: Vec<u8>,
+    }
+
+    /// What `digest` returned for a stage.
+    pub struct VerifLeafStageResult {
+        /// `Some(key)` when `digest` returned `NeedsMerge(key)`.
+        pub needs_merge: Option<KeyPath>,
+        /// Body size of the updater's gauge after `digest`.
+        pub gauge_left: usize,
+        /// The overflow cells reported deleted during the stage.
+        pub deleted_overflow: Vec<Vec<u8>>,
+    }
+
+    /// Result of `leaf_rebuild_stages`.
+    pub struct VerifLeafRebuild {
+        /// The leaves in the order they were built.
+        pub built: Vec<VerifBuiltLeaf>,
+        /// Per stage result.
+        pub stages: Vec<VerifLeafStageResult>,
+        /// The cells still waiting in the updater after the last stage.
+        pub pending: Vec<VerifLeafCell>,
+        /// The separator override left in the updater.
+        pub pending_separator: Option<KeyPath>,
+    }
+
+    /// Build a leaf page from ascending cells with the real `LeafBuilder`.
+    pub fn leaf_build(cells: &[VerifLeafCell]) -> Vec<u8> {
+        crate::beatree::verif_leaf::build_page(cells)
+    }
+
+    /// Drive the real `LeafUpdater` through the stages and return every leaf it builds.
+    pub fn leaf_rebuild_stages(stages: Vec<VerifLeafStage>) -> VerifLeafRebuild {
+        let out = crate::beatree::verif_leaf::rebuild(
+            stages
+                .into_iter()
+                .map(|s| crate::beatree::verif_leaf::Stage {
+                    base: s.base.map(|cells| (s.separator, cells)),
+                    remove_cutoff: s.remove_cutoff,
+                    ops: s
+                        .ops
+                        .into_iter()
+                        .map(|op| match op {
+                            VerifLeafOp::Put {
+                                key,
+                                value,
+                                overflow,
+                            } => (key, Some((value, overflow))),
+                            VerifLeafOp::Delete { key } => (key, None),
+                        })
+                        .collect(),
+                    cutoff: s.cutoff,
+                })
+                .collect(),
+        );
+        VerifLeafRebuild {
+            built: out
+                .built
+                .into_iter()
+                .map(|b| VerifBuiltLeaf {
+                    stage: b.stage,
+                    separator: b.separator,
+                    cutoff: b.cutoff,
+                    gauge_body_size: b.note.gauge_body_size,
+                    builder_body_size: crate::beatree::verif_leaf::body_size(
+                        b.note.builder_n,
+                        b.note.builder_values_size,
+                    ),
+                    page: b.page,
+                })
+                .collect(),
+            stages: out
+                .stages
+                .into_iter()
+                .map(|r| VerifLeafStageResult {
+                    needs_merge: r.needs_merge,
+                    gauge_left: r.gauge_left,
+                    deleted_overflow: r.deleted_overflow,
+                })
+                .collect(),
+            pending: out.pending,
+            pending_separator: out.pending_separator,
+        }
+    }
+
+    /// One base leaf (separator all zero), the operations on it, one `digest`: the leaves built.
+    pub fn leaf_rebuild(
+        base: Option<Vec<VerifLeafCell>>,
+        ops: Vec<VerifLeafOp>,
+        cutoff: Option<KeyPath>,
+    ) -> Vec<VerifBuiltLeaf> {
+        leaf_rebuild_stages(vec![VerifLeafStage {
+            base,
+            separator: [0u8; 32],
+            remove_cutoff: false,
+            ops,
+            cutoff,
+        }])
+        .built
+    }
 }
 
 const MAX_COMMIT_CONCURRENCY: usize = 64;
